@@ -313,6 +313,18 @@ def pair_cases():
             for direction, p in (([1 / 3, 1 / 3, 1 / 3], 0.1), ([0.1, 0.1, 0.8], 0.05)):
                 out.append(dict(base, decoder=dec, dparams=dp, direction=direction,
                                 error_rate=p, code=domain.code_case(cls, size)))
+    # prior-sensitive BP-OSD settings on CSS codes: rate and flip marginal
+    # on opposite sides of 1/2, strongly biased deformed noise, product-sum
+    for cls, size in (('RotatedPlanar2DCode', (3, 2)), ('Planar2DCode', (2, 2))):
+        for dp, direction, p, nd in (
+                ({'osd_order': 0}, [1 / 3, 1 / 3, 1 / 3], 0.7, None),
+                ({'osd_order': 10}, [0.05, 0.05, 0.9], 0.6, None),
+                ({'osd_order': 0, 'max_bp_iter': 3}, [0.05, 0.05, 0.9], 0.1, 'XZZX'),
+                ({'osd_order': 0, 'bp_method': 'product_sum'}, [0.8, 0.1, 0.1], 0.2, 'XZZX'),
+                ({'osd_order': 10, 'bp_method': 'product_sum'}, [0.1, 0.1, 0.8], 0.3, None)):
+            out.append(dict(base, decoder='BeliefPropagationOSDDecoder', dparams=dp,
+                            direction=direction, error_rate=p, noise_deformation=nd,
+                            code=domain.code_case(cls, size)))
     # non-CSS BP-OSD
     out.append(dict(base, decoder='BeliefPropagationOSDDecoder', dparams={'osd_order': 10},
                     direction=[1 / 3, 1 / 3, 1 / 3], error_rate=0.1,
